@@ -137,7 +137,8 @@ def run_case(case):
         w2, mu2, var2 = og.map_mstep(st, prior, cur, sw, relevance, alpha, EPS, vfl)
         c.close(P[0], w2, "map_weights", f"weights after iteration {k}", tags0)
         c.close(float(P[0].sum()), 1.0, "map_weights", "adapted weights sum to one", tags0, rtol=1e-12)
-        c.close(P[1], mu2, "map_means", f"means after iteration {k}", tags0, scale=scale)
+        un = pr.get("unit", 1.0)  # comparisons are made in units of order one so that the tolerance floor max(1,|want|) is not vacuous
+        c.close(P[1] / un, mu2 / un, "map_means", f"means after iteration {k}", tags0, scale=scale / un)
         tiny = st["n"] < 1e-9  # near the count floor the two branches of the variance rule meet: not compared
         ok_rows = ~tiny | (st["n"] == 0)
         raw_ok = var2 > 64 * EPS * scale * scale * (1 + len(X))
@@ -153,11 +154,11 @@ def run_case(case):
             else:
                 c.check(True, "map_variances", "")
         else:
-            c.close(P[2], cur[2], "map_variances", "variances must stay when not updated", tags0, rtol=1e-15)
+            c.close(P[2] / (un * un), cur[2] / (un * un), "map_variances", "variances must stay when not updated", tags0, rtol=1e-15)
         # no-evidence component keeps the prior's mean
         for cc in np.where(st["n"] == 0)[0] if sw[0] else []:
             c.count("zero_evidence_components")
-            c.close(P[1][cc], prior[1][cc], "no_evidence", f"component {cc} without evidence must keep the prior mean", tags0, rtol=1e-15)
+            c.close(P[1][cc] / un, prior[1][cc] / un, "no_evidence", f"component {cc} without evidence must keep the prior mean", tags0, rtol=1e-15)
         # the machine's own likelihood must be the likelihood of its visible parameters (no stale cache after the M-step)
         if np.all(P[2] > 0) and np.all(P[0] > 0):
             c.close(np.asarray(m.log_likelihood(X), float), og.ll(X, *P), "loglik_consistency", f"log_likelihood after iteration {k} vs definition on the visible parameters", tags0)
